@@ -97,11 +97,17 @@ def gen_case(r, i, nmax, exact=False, floats=False):
     y = gen.labels(r, n, r.randint(1, 4)) if kind == "sup" else None
     if y is not None and r.random() < 0.3:
         y = np.array(r.sample(range(10), 4), dtype=int)[y]       # class labels need not be 0..k-1
+    ydtype = None
+    if y is not None and not exact and r.random() < 0.3:
+        # class targets need not be an int64 array: boolean flags, narrow integer codes, float codes
+        ydtype = r.choice(["bool", "int8", "uint8", "float64"])
+        if ydtype == "bool":
+            y = y % 2
     mode = MODES[(i // 24) % 5] if not exact else r.choice(MODES)
     eps = r.choice([0.0, 2.0 ** -20, 2.0 ** -10, 1e-10, 0.125])
     if exact:
         eps = r.choice([0.0, 2.0 ** -20, 2.0 ** -10, 0.125])
-    return dict(kind=kind, cls=cls, classes=classes, k=k, n=n, ds=ds, Xs=Xs, y=y, mods=mods, spec=spec,
+    return dict(ydtype=ydtype, kind=kind, cls=cls, classes=classes, k=k, n=n, ds=ds, Xs=Xs, y=y, mods=mods, spec=spec,
                 mode=mode, eps=eps)
 
 
@@ -124,6 +130,8 @@ def do_fit(est, case, a, b, op):
             return est.fit(X, **kw) if op == "fit" else est.partial_fit(X, **kw)
         Xs = [X[a:b] for X in case["Xs"]]
         y = None if case["y"] is None else case["y"][a:b]
+        if y is not None and case.get("ydtype"):
+            y = y.astype({"bool": bool, "int8": np.int8, "uint8": np.uint8, "float64": np.float64}[case["ydtype"]])
         return est.fit(Xs, y, **kw) if op == "fit" else est.partial_fit(Xs, y, **kw)
 
 
@@ -368,7 +376,7 @@ def correspondence(ctx, N, nmax):
         if r.random() < 0.7:
             calls.insert(r.randint(1, len(calls)), ("pred", 0, 0))
         rep = {"kind": case["kind"], "spec": case["spec"], "Xs": [X.tolist() for X in case["Xs"]],
-               "y": None if case["y"] is None else case["y"].tolist(), "mode": case["mode"], "eps": case["eps"],
+               "y": None if case["y"] is None else case["y"].tolist(), "y_dtype": case.get("ydtype"), "mode": case["mode"], "eps": case["eps"],
                "calls": calls, "Q": case["Q"].tolist()}
         try:
             est = build(case)
@@ -444,7 +452,7 @@ def run(ctx):
         kind, cls, n = case["kind"], case["cls"], case["n"]
         name = {"sup": "DeepARTMAP-sup", "unsup": "DeepARTMAP-unsup", "smart": "SMART"}[kind]
         rep = {"kind": kind, "spec": case["spec"], "Xs": [X.tolist() for X in case["Xs"]],
-               "y": None if case["y"] is None else case["y"].tolist(), "mode": case["mode"], "eps": case["eps"]}
+               "y": None if case["y"] is None else case["y"].tolist(), "y_dtype": case.get("ydtype"), "mode": case["mode"], "eps": case["eps"]}
         parts = gen.compositions(r, n)
         if len(parts) == 1 and n > 1 and r.random() < 0.7:
             c = r.randint(1, n - 1)
